@@ -25,11 +25,11 @@ pub fn property() -> Property {
             "tokio paused clock / current-thread scheduler",
         ],
         families: vec![
-            (Box::new(ShapeFam), 40_000, 320_000),
-            (Box::new(AuthFam), 20_000, 160_000),
-            (Box::new(ServerFam), 2_000, 16_000),
-            (Box::new(OrderFam), 15_000, 120_000),
-            (Box::new(GlueFam), 24, 300),
+            (Box::new(ShapeFam), 200_000, 2_000_000),
+            (Box::new(AuthFam), 100_000, 1_500_000),
+            (Box::new(ServerFam), 10_000, 200_000),
+            (Box::new(OrderFam), 75_000, 1_500_000),
+            (Box::new(GlueFam), 60, 1_500),
         ],
     }
 }
